@@ -119,7 +119,28 @@ func keyName(k int, emptyKey bool) string {
 	return fmt.Sprintf("key-%d", k)
 }
 
+// execLRU runs the history under a watcher that decides "a cache operation can never return because the cache's
+// mutex was left locked" exactly (see kit.WatchMutexStall) — a real sync.Mutex wait is invisible to synctest.
 func execLRU(t *testing.T, scAny any, keepLog bool) *Outcome {
+	var o *Outcome
+	var pv any
+	stall := kit.WatchMutexStall("tls.(*lruSessionCache)", func() {
+		defer func() { pv = recover() }()
+		o = execLRU1(t, scAny, keepLog)
+	})
+	if pv != nil {
+		panic(pv)
+	}
+	if stall != "" {
+		h := kit.NewHash64()
+		h.WriteString(fmt.Sprintf("%+v", scAny))
+		return &Outcome{Counters: map[string]int{"probe.mutex_stall_decided": 1}, Nontrivial: true, Distinct: h.Sum(), LogHash: h.Sum(),
+			Fail: Failf("lru.blocked", "a cache operation can never return: the cache's mutex is held by no running operation", "%s", stall)}
+	}
+	return o
+}
+
+func execLRU1(t *testing.T, scAny any, keepLog bool) *Outcome {
 	sc := scAny.(*lruScenario)
 	if len(sc.Conc) > 0 {
 		return execLRUConc(t, sc)
